@@ -71,6 +71,7 @@ type Frame struct {
 	nAcquire  int
 	acquired  map[*lockSpec]bool // locks this (top) frame has taken on some path
 	wantCurrent bool // resolveLocal: skip the entry value of parameters
+	cbFree    map[string]*Val // free variables of a callback closure bound for applyContract
 	nUnlock   int
 	relOrd    map[ssa.Instruction]int
 	ghosts    []*Val
